@@ -178,37 +178,60 @@ func runC06(c *Ctx) {
 			c.Fail("UNKNOWN-REJECTED", name, token.NoPos, "not found")
 			continue
 		}
-		info := tf.Info()
+		// decided on SSA: some return of a non-nil error lies on the "absent" edge of two different comma-ok lookups (the
+		// rule index and the category index), whatever the shape of the if/else-if/switch
 		ok := false
-		ast.Inspect(tf.Decl.Body, func(n ast.Node) bool {
-			ifs, isIf := n.(*ast.IfStmt)
-			if !isIf || ifs.Else == nil {
-				return true
+		sf := p.SSAFunc(tf.Obj)
+		for _, f := range allSSAFuncs(sf) {
+			type absentEdge struct {
+				blk    *ssa.BasicBlock
+				branch bool // the branch taken when the key is absent
+				lk     *ssa.Lookup
 			}
-			// if _, ok := A[id]; ok {…} else if _, ok := B[id]; ok {…} else { return …, err }
-			inner, isIf2 := ifs.Else.(*ast.IfStmt)
-			if !isIf2 || inner.Else == nil {
-				return true
-			}
-			blk, isBlk := inner.Else.(*ast.BlockStmt)
-			if !isBlk {
-				return true
-			}
-			lookups := 0
-			for _, s := range []*ast.IfStmt{ifs, inner} {
-				if as, isAs := s.Init.(*ast.AssignStmt); isAs && len(as.Rhs) == 1 {
-					if _, isIdx := as.Rhs[0].(*ast.IndexExpr); isIdx {
-						lookups++
+			var edges []absentEdge
+			for _, b := range f.Blocks {
+				for _, ins := range b.Instrs {
+					lk, isLk := ins.(*ssa.Lookup)
+					if !isLk || !lk.CommaOk || lk.Referrers() == nil {
+						continue
+					}
+					for _, ref := range *lk.Referrers() {
+						ex, isEx := ref.(*ssa.Extract)
+						if !isEx || ex.Index != 1 {
+							continue
+						}
+						for _, ib := range f.Blocks {
+							if i := ifOf(ib); i != nil {
+								if cond, pos := condPolarity(i.Cond); cond == ssa.Value(ex) {
+									edges = append(edges, absentEdge{ib, !pos, lk})
+								}
+							}
+						}
 					}
 				}
 			}
-			for _, st := range blk.List {
-				if r, isRet := st.(*ast.ReturnStmt); isRet && classifyReturn(info, r) == retNonNil && lookups == 2 {
-					ok = true
+			for _, b := range f.Blocks {
+				for _, ins := range b.Instrs {
+					r, isRet := ins.(*ssa.Return)
+					if !isRet || len(r.Results) == 0 {
+						continue
+					}
+					last := r.Results[len(r.Results)-1]
+					if !isErrorType(last.Type()) || isNilConst(last) {
+						continue
+					}
+					absent := map[*ssa.Lookup]bool{}
+					for _, e := range edges {
+						if edgeDominates(e.blk, e.branch, b) {
+							absent[e.lk] = true
+						}
+					}
+					if len(absent) >= 2 {
+						ok = true
+					}
 				}
 			}
-			return true
-		})
+		}
 		c.Ob("UNKNOWN-REJECTED", name, tf.Decl.Pos(), ok, true, "the branch where neither the rule lookup nor the category lookup succeeds returns a non-nil error: %v", ok)
 	}
 
@@ -323,7 +346,10 @@ func c06Suppression(c *Ctx, t *checkTables) {
 		}
 		sf := p.SSAFunc(tf.Obj)
 		okF, n := true, 0
-		for _, f := range allSSAFuncs(sf) {
+		for _, f := range reachSSA(sf, 2) {
+			if f.Pkg == nil || f.Pkg != sf.Pkg {
+				continue
+			}
 			for _, b := range f.Blocks {
 				for _, ins := range b.Instrs {
 					mu, ok := ins.(*ssa.MapUpdate)
